@@ -446,8 +446,8 @@ struct SSGen {
         // an attribute replaces the one with the same expanded name, whatever the prefixes (XSLT 7.1.3)
         if (on("attr-expanded")) { perNode += "<xsl:if test=\"not(ancestor::*)\"><o f=\"attr-expanded\" n=\"{@id}\"><c><xsl:attribute name=\"za:a\" namespace=\"urn:x-zq\">1</xsl:attribute><xsl:attribute name=\"zb:a\" namespace=\"urn:x-zq\">2</xsl:attribute><xsl:attribute name=\"zb:b\" namespace=\"urn:x-zq\">3</xsl:attribute><xsl:attribute name=\"a\">4</xsl:attribute></c><d xmlns:zc=\"urn:x-zq\" zc:a=\"1\"><xsl:attribute name=\"zd:a\" namespace=\"urn:x-zq\">2</xsl:attribute><xsl:attribute name=\"zd:a\" namespace=\"urn:x-zr\">5</xsl:attribute></d></o></xsl:if>";
             out.expect.emplace_back("attr-expanded", "E{|c|^a=4;urn:x-zq^a=2;urn:x-zq^b=3;|}E{|d|urn:x-zq^a=2;urn:x-zr^a=5;|}"); }
-        if (on("copy-ns-attr")) { perNode += "<xsl:if test=\"not(ancestor::*)\"><xsl:variable name=\"cna\"><e xmlns:zq=\"urn:x-zq\" zq:a=\"1\" b=\"2\"/></xsl:variable><o f=\"copy-ns-attr\" n=\"{@id}\"><c><xsl:copy-of xmlns:zq=\"urn:x-zq\" select=\"exsl:node-set($cna)/e/@zq:a\"/></c><d><xsl:for-each xmlns:zq=\"urn:x-zq\" select=\"exsl:node-set($cna)/e/@*\"><xsl:copy/></xsl:for-each></d></o></xsl:if>";
-            out.expect.emplace_back("copy-ns-attr", "E{|c|urn:x-zq^a=1;|}E{|d|^b=2;urn:x-zq^a=1;|}"); }
+        if (on("copy-ns-attr")) { perNode += "<xsl:if test=\"not(ancestor::*)\"><xsl:variable name=\"cna\"><e xmlns:zq=\"urn:x-zq\" zq:a=\"1\" b=\"2\"/></xsl:variable><o f=\"copy-ns-attr\" n=\"{@id}\"><c><xsl:copy-of xmlns:zq=\"urn:x-zq\" select=\"exsl:node-set($cna)/e/@zq:a\"/></c><d><xsl:for-each xmlns:zq=\"urn:x-zq\" select=\"exsl:node-set($cna)/e/@*\"><xsl:copy/></xsl:for-each></d><g xmlns:zq=\"urn:x-zother\" zq:k=\"0\"><xsl:copy-of xmlns:zq=\"urn:x-zq\" select=\"exsl:node-set($cna)/e/@zq:a\"/></g><h><xsl:attribute name=\"zq:a\" namespace=\"urn:x-zother\">0</xsl:attribute><xsl:for-each xmlns:zq=\"urn:x-zq\" select=\"exsl:node-set($cna)/e/@zq:a\"><xsl:copy/></xsl:for-each></h></o></xsl:if>";
+            out.expect.emplace_back("copy-ns-attr", "E{|c|urn:x-zq^a=1;|}E{|d|^b=2;urn:x-zq^a=1;|}E{|g|urn:x-zother^k=0;urn:x-zq^a=1;|}E{|h|urn:x-zother^a=0;urn:x-zq^a=1;|}"); }   /* the prefix of the copied attribute is undeclared (c, d) or bound to another namespace (g, h) where it lands */
         // many result tree fragments alive at the same time (arena blocks of the fragment allocators hold 10)
         if (on("manyrtf")) { std::string vars, uses; for (int i = 0; i < 13; ++i) { std::string n = "mr" + std::to_string(i); vars += "<xsl:variable name=\"" + n + "\"><r" + std::to_string(i) + "><xsl:value-of select=\"@id\"/></r" + std::to_string(i) + ">t" + std::to_string(i) + "</xsl:variable>"; uses += "<xsl:value-of select=\"string-length($" + n + ")\"/>,"; }
             perNode += "<xsl:if test=\"count(preceding::*) mod 4 = 0\">" + vars + "<o f=\"manyrtf\" n=\"{@id}\">" + uses + "<xsl:copy-of select=\"$mr12\"/></o></xsl:if>"; }
